@@ -19,7 +19,7 @@ func init() {
 			"the set of recorded states under which a node is reset, united with the kept states {finished, skipped} and the already-runnable state {not started}, covers every NodeStatus constant (C10.reset-exhaustive)",
 			"the downstream mark is applied for every out-edge of a node marked for retry and every out-neighbour is re-queued (C10.propagate)",
 			"the retry graph runs the same edge/cycle setup before the reset and returns its error (C10.same-checks)",
-			"retry: the loader's parameter string is the recorded Status.Params, RetryTarget is that same status, the agent's request id comes from the generator and not from --req, nodes are rebuilt from retryTarget.Nodes; restart: parameters come from GetLatestStatus(...).Params (C10.flows)",
+			"retry: the loader's parameter string is the recorded Status.Params, RetryTarget is that same status, the agent's request id comes from the generator and not from --req, nodes are rebuilt from retryTarget.Nodes; restart: parameters come from GetLatestStatus(...).Params; the retry command reaches Agent.Run under no condition on the record's own fields (what is re-run is decided per step) (C10.flows)",
 			"every NodeState field the status names is copied out by FromNode and back by ToNode (C08.persisted-fields shared); kept steps cannot be launched (C01.gate shared)",
 		},
 		NotDec: []string{"the parameter string round trip itself (C11 / F22)", "termination of the retry beyond the reset coverage", "dependency order over concrete graphs"},
@@ -371,7 +371,7 @@ func c10SameChecks(e *Env, s *Sched) {
 
 func c10Flows(e *Env, s *Sched) {
 	r := e.R
-	r.Rule("C10.flows", "VF", "retry/restart re-use the recorded parameters, status and nodes; new request id", 5)
+	r.Rule("C10.flows", "VF", "retry/restart re-use the recorded parameters, status and nodes; new request id; run regardless of the run-level status", 6)
 	loadFn := e.FnQuiet(dagRel, "Load")
 	agentNew := e.FnQuiet("internal/agent", "New")
 	sp := e.P.Pkg("cmd")
@@ -457,6 +457,49 @@ func c10Flows(e *Env, s *Sched) {
 	}
 	if nLoad == 0 || nNew == 0 {
 		r.Unknown("retry command body", "-", sprintf("dag.Load calls=%d agent.New calls=%d in the body of the command whose usage starts with `retry`", nLoad, nNew))
+	}
+	// the retry runs whatever the record says about the run as a whole: which steps are
+	// re-executed is decided per step from the recorded node states (C10.reset-exhaustive);
+	// a run-level "finished" is also what a record looks like between two steps, and after
+	// a step of a finished run was marked failed
+	fromRecord := func(v ssa.Value) bool {
+		if v == nil {
+			return false
+		}
+		ps, ok := e.DeepPaths(v)
+		if !ok {
+			return false
+		}
+		for _, p := range ps {
+			if len(p.Fields) > 0 && invokeResult(p.Root, "FindByRequestID", 0) {
+				return true
+			}
+		}
+		return false
+	}
+	nRun := 0
+	for _, f := range retryFns {
+		for _, ci := range ir.CallsIn(f, func(c *ssa.CallCommon) bool {
+			return strings.HasSuffix(ir.CalleeName(c), "internal/agent.Agent).Run")
+		}) {
+			nRun++
+			var about []ir.NLit
+			for _, way := range e.waysTo(ci) {
+				for _, l := range way {
+					if l.Kind == "cmp" && (ir.IsNilConst(l.Y) || ir.IsNilConst(l.X)) {
+						continue
+					}
+					if fromRecord(l.X) || fromRecord(l.Y) || fromRecord(l.V) {
+						about = append(about, l)
+					}
+				}
+			}
+			r.Check(len(about) == 0, "retry: the agent runs whatever the recorded run-level outcome is", e.InstrPos(ci),
+				"the retry command decides from the recorded run's own fields whether anything is re-run: a record whose run-level status says finished while steps are not started (crash between two steps) or failed (marked by hand) is then not re-executed", e.FactsStr("conditions about the record: ", about))
+		}
+	}
+	if nRun == 0 {
+		r.Unknown("retry: the agent runs whatever the recorded run-level outcome is", "-", "no call of Agent.Run in the body of the retry command")
 	}
 	// ---- agent: the retry graph is built by the retry constructor from retryTarget.Nodes, each through ToNode
 	a := e.agentRoles()
